@@ -14,6 +14,7 @@ C08.f  [sib] payload and void specialisations of updatePlan agree after erasing 
 C08.g  the plan-exists gate: set by append only, cleared by the full reset only (shares C09.b).
 C08.h  [summary] succeed(id)/fail(id) set exactly the bit of id and the cycle result; the parameterless forms report for the caller.
 C08.i  the per-cycle status is reset on every path after the plan step (shares C09.e).
+C08.l  [effect] a fired task's request replaces the whole request slot, payload included (shares C02.a)
 C08.k  [must-write] PlanDataT::clear(), deactivation and load reset the whole plan state, task links included (shares C09.f).
 C08.j  [summary] order across plan edits: linkTask appends at the tail, PlanT::remove unlinks exactly the given task, the plan
        iterators step to the successor cached before a removal (shares the per-operation summaries C10.b/d/e).
